@@ -37,7 +37,7 @@ Definition frame (payload : list N) : list N :=
 
 Inductive err :=
 | ENothingRead | EBufferFull | ETooLarge | EUnderDelim | EInvalidProto
-| EConnection | ENoByteToRead | ENoByteWritten | EWrite.
+| EConnection | ENoByteToRead | ENoByteWritten | EWrite | ETimeout.
 
 Inductive res (A : Type) := Ok (a : A) | Err (e : err).
 Arguments Ok {A} _.
@@ -171,6 +171,31 @@ Section WithDecoder.
     | (c', Err e) => (c', Err e)
     end.
 
+  (** [read_message_blocking_timeout] on a socket whose pending bytes are all
+      in [inq] (nothing more arrives during the call): try to decode, else read
+      once into the free space, and again; with nothing left to read the call
+      times out ([Err ETimeout]) or, at end-of-stream, reports NoByteToRead. *)
+  Fixpoint read_blocking_loop (fuel : nat) (c : chan) (s : sock) : chan * sock * res (list N) :=
+    match fuel with
+    | O => (c, s, Err ETimeout)
+    | S fuel' =>
+      match try_read c with
+      | (c', Ok (Some m)) => (try_shrink_front c', s, Ok m)
+      | (c', Err e) => (c', s, Err e)
+      | (c', Ok None) =>
+        match inq s with
+        | [] => (c', s, if ineof s then Err ENoByteToRead else Err ETimeout)
+        | _ =>
+          let '(fb, n) := fill_bytes (front c') (inq s) in
+          if n =? 0 then (c', s, Err ENoByteToRead)
+          else read_blocking_loop fuel' (set_front c' fb)
+                                  (mksock (skipn n (inq s)) (ineof s) (wsched s) (outq s))
+        end
+      end
+    end.
+  Definition read_blocking (c : chan) (s : sock) : chan * sock * res (list N) :=
+    read_blocking_loop (S (S (length (inq s) + maxb c))) c s.
+
   (** The owner's loop, [Server::read_channel_messages_and_notify]
       ([lib/src/server.rs]) and the identical loop in
       [bin/src/command/sessions.rs]: one [readable], then [read_message] until
@@ -272,6 +297,17 @@ Definition write_delimited (c : chan) (payload : list N) : chan * res unit :=
       let '(b3, ok2) := write_all (S (length payload)) b2 payload in
       (set_back c b3, if ok2 then Ok tt else Err EWrite)
     else (set_back c b2, Err EWrite)
+  end.
+
+(** [write_message] on a blocking channel whose peer accepts everything:
+    frame into the back buffer, then write it all out. *)
+Definition write_blocking (c : chan) (s : sock) (payload : list N) : chan * sock * res unit :=
+  match write_delimited c payload with
+  | (c', Ok _) =>
+    let d := dat (back c') in
+    (set_back c' (fst (consume (back c') (length d))),
+     mksock (inq s) (ineof s) (wsched s) (outq s ++ d), Ok tt)
+  | (c', Err e) => (c', s, Err e)
   end.
 
 (** [write_message] on a non-blocking channel *)
